@@ -119,6 +119,31 @@ def lean_build(prop: str, tier: str, info: dict):
         p = subprocess.run(["lake", "build", *targets], cwd=LEAN, capture_output=True, text=True)
         info["lake_build_s"] = round(time.time() - t0, 2)
         if p.returncode != 0:
+            # The translators may have READ the source as definitions that differ from the pinned ones (a rewritten formula):
+            # the theorems are then re-checked about what the code says now and do not close.  That is either a harmful
+            # change or an algebraically equal rewrite the proof script does not normalise.  Decide it the way a lost anchor
+            # is decided (DESIGN 4.2): put the pinned definitions back, rebuild, and let the thorough-size correspondence -
+            # which evaluates the pinned definitions against the source's own expressions and replays whole runs - say
+            # whether the model still describes the code.
+            gen_dir, pin_dir = LEAN / "PyttbModel" / "Generated", ROOT / "harness" / "translate" / "pinned"
+            differing = [f.name for f in sorted(pin_dir.glob("*.lean"))
+                         if (gen_dir / f.name).exists() and (gen_dir / f.name).read_text() != f.read_text()
+                         and (gen_dir / f.name) in import_closure(prop)]
+            if differing:
+                read = {n: (gen_dir / n).read_text() for n in differing}
+                for n in differing:
+                    (gen_dir / n).write_text((pin_dir / n).read_text())
+                p2 = subprocess.run(["lake", "build", *targets], cwd=LEAN, capture_output=True, text=True)
+                if p2.returncode == 0:
+                    errs = re.findall(r"error: ([^\n]*)", p.stdout + p.stderr)
+                    info["generated_as_read"] = read
+                    broken.append("anchor lost: the definitions read from the source (" + ", ".join(differing) + ") differ from the pinned "
+                                  "ones and the theorems do not close for them (" + "; ".join(errs[:2])[:200] + "); pinned definitions used")
+                    p = p2
+                else:
+                    for n, t in read.items():
+                        (gen_dir / n).write_text(t)
+        if p.returncode != 0:
             out = (p.stdout + p.stderr)
             errs = re.findall(r"error: ([^\n]*)", out)
             info["lake_errors"] = errs[:20]
